@@ -417,15 +417,36 @@ pub fn run_c13(tier: Tier, seed: u64, index: u64, scratch: &Scratch, rec: &mut R
     let mut opts = opts_for("C13", tier, &mut fr);
     opts.reps = if tier == Tier::Quick { 12 } else { 48 };
     opts.max_steps = 3;
-    let (mut t, _plan) = gen::baseline(seed, &opts);
+    // one world in eight: delegations that share one sub-layout, as surplus evidence (shape 7)
+    let shared_sub = Rng::stream(seed, "c13-shape").chance(1, 8);
+    if shared_sub {
+        opts.delegation_pct = 75;
+    }
+    let (mut t, plan) = gen::baseline(seed, &opts);
     // surplus, differing links: for one step add authorized signers whose links carry other products
     let ed_only = t.keys.iter().all(|k| k.kind.is_ed());
     let n_steps = t.root.layout.steps.len();
     let si = fr.idx(n_steps);
-    let shape = fr.below(7);
+    let mut shape = fr.below(7);
+    if shared_sub {
+        shape = 7;
+        // two functionaries of one step file the same sub-layout (co-signed or signed separately); the
+        // second one's own sub-directory is empty, incomplete, badly signed, or holds valid evidence with
+        // other products; one filing would satisfy the step
+        if gen::apply_fault(&mut t, &plan, F::SharedSub, &mut fr, false) {
+            let names: Vec<String> = t.root.layout.steps.iter().map(|s| s.name.clone()).collect();
+            for (i, n) in names.iter().enumerate() {
+                let subs = t.root.files.iter().filter(|f| f.name.starts_with(&format!("{}.", n)) && matches!(f.body, crate::world::Body::Layout(_))).count();
+                if subs >= 2 && fr.chance(3, 4) {
+                    t.root.layout.steps[i].threshold = 1;
+                }
+            }
+            t.labels.push("SHARED-SUBLAYOUT-SURPLUS".into());
+        }
+    }
     let sname = t.root.layout.steps[si].name.clone();
     let template = t.root.files.iter().find(|f| f.name.starts_with(&format!("{}.", sname)) && matches!(f.body, crate::world::Body::Link(_))).cloned();
-    if let Some(tpl) = template {
+    if let (Some(tpl), true) = (template, shape < 7) {
         if shape < 3 {
             if t.root.layout.steps[si].threshold > 1 && fr.chance(2, 3) {
                 // keep multi-party steps as they are sometimes: surplus beyond threshold must agree anyway
